@@ -471,6 +471,8 @@ def classify(acc, case, exp, got, crashed=False):
         return 'values:%s:%s:%s' % (dk, form, case.get('lk'))
     if cls(exp) == 'reject' and mal == 'unbalanced-braces' and cls(got) == 'accept':
         return 'reject->accept:format-with-unbalanced-braces'
+    if cls(exp) == 'reject' and mal == 'array-shape-before-padding' and cls(got) == 'accept':
+        return 'reject->accept:array-shape-carried-over-padding-to-the-next-item'
     if cls(exp) == 'reject' and mal == 'dangling-repeat-count' and cls(got) == 'accept':
         return 'reject->accept:format-with-dangling-repeat-count'
     if cls(exp) == 'reject' and mal == 'zero-repeat-struct' and cls(got) == 'accept':
